@@ -22,7 +22,9 @@ import (
 	"sort"
 	"strings"
 	"sync"
+	"sync/atomic"
 	"syscall"
+	"time"
 	"unsafe"
 
 	"github.com/aws/aws-sdk-go/aws"
@@ -48,9 +50,11 @@ type storeEv struct {
 	// retry; if it reports success the bytes must be there
 	Transient bool `json:"transient"`
 	// recheck / cload: earlier results looked at again
-	Changed int `json:"changed"`
-	Writers int `json:"writers"`
-	Errs    int `json:"errs"`
+	Changed  int `json:"changed"`
+	Writers  int `json:"writers"`
+	Errs     int `json:"errs"`
+	Oks      int `json:"oks"`      // hstore: writers that reported success
+	Injected int `json:"injected"` // hstore: uploads that were made to fail
 	// s3: every (bucket, key) the call asked the client for, and the intended one
 	Asked  []string `json:"asked"`
 	Intend string   `json:"intend"`
@@ -64,9 +68,12 @@ type fakeS3 struct {
 	mu            sync.Mutex
 	obj           map[string][]byte
 	asked         []string
-	failIn        int // fail the next n calls
-	failTransient int // fail the next n PUTs with a 500 after reading the body
-	gets          int // GETs served (selects how the body is handed out)
+	failIn        int           // fail the next n calls
+	failTransient int           // fail the next n PUTs with a 500 after reading the body
+	gets          int           // GETs served (selects how the body is handed out)
+	hold          chan struct{} // when set, PUTs wait here after their body has been read
+	arrived       int32         // PUTs that have reached the hold
+	failHeld      int32         // the first n PUTs to have arrived fail once released
 }
 
 func (f *fakeS3) HeadObjectWithContext(ctx aws.Context, in *s3.HeadObjectInput, _ ...request.Option) (*s3.HeadObjectOutput, error) {
@@ -144,6 +151,19 @@ func (p *pieceReader) Read(b []byte) (int, error) {
 }
 func (f *fakeS3) PutObjectWithContext(ctx aws.Context, in *s3.PutObjectInput, _ ...request.Option) (*s3.PutObjectOutput, error) {
 	b, err := io.ReadAll(in.Body)
+	f.mu.Lock()
+	hold := f.hold
+	f.mu.Unlock()
+	if hold != nil {
+		idx := atomic.AddInt32(&f.arrived, 1)
+		<-hold
+		if idx <= atomic.LoadInt32(&f.failHeld) {
+			f.mu.Lock()
+			f.asked = append(f.asked, f.key(in.Bucket, in.Key))
+			f.mu.Unlock()
+			return nil, injectedErr(f.key(in.Bucket, in.Key))
+		}
+	}
 	f.mu.Lock()
 	defer f.mu.Unlock()
 	f.asked = append(f.asked, f.key(in.Bucket, in.Key))
@@ -364,6 +384,49 @@ func storeContractRun(id int, seed int64, scratch string, out *json.Encoder) {
 			recheck()
 		case x == 10:
 			doCLoad()
+		case fs != nil && rng.Intn(2) == 0:
+			// the service is slow: one writer's upload of a name is still in flight when others store the same name and bytes;
+			// the first upload then fails. Who reports success has stored the bytes; only a writer whose own upload failed may fail.
+			w := 2 + rng.Intn(3)
+			fs.mu.Lock()
+			fs.hold = make(chan struct{})
+			fs.mu.Unlock()
+			atomic.StoreInt32(&fs.arrived, 0)
+			atomic.StoreInt32(&fs.failHeld, 1)
+			var wg sync.WaitGroup
+			var oks, errs int32
+			start := func() {
+				wg.Add(1)
+				go func() {
+					defer wg.Done()
+					res, _ := guard(func() error { return p.Store(ctx, names[i], payloads[i]) })
+					if res == "ok" {
+						atomic.AddInt32(&oks, 1)
+					} else {
+						atomic.AddInt32(&errs, 1)
+					}
+				}()
+			}
+			waitArrived := func(n int32, d time.Duration) {
+				for t0 := time.Now(); atomic.LoadInt32(&fs.arrived) < n && time.Since(t0) < d; {
+					time.Sleep(time.Millisecond)
+				}
+			}
+			start()
+			waitArrived(1, 2*time.Second)
+			for j := 1; j < w; j++ {
+				start()
+			}
+			waitArrived(int32(w), 150*time.Millisecond)
+			fs.mu.Lock()
+			close(fs.hold)
+			fs.hold = nil
+			fs.mu.Unlock()
+			wg.Wait()
+			atomic.StoreInt32(&fs.failHeld, 0)
+			fs.take()
+			emit(storeEv{Op: "hstore", Name: i, Len: len(payloads[i]), Dig: digestOf(payloads[i]), Writers: w, Errs: int(errs), Oks: int(oks), Injected: 1, Res: "ok"})
+			doLoad(i, false)
 		default:
 			// concurrent writers of the same name and bytes, then a load
 			w := 2 + rng.Intn(6)
